@@ -408,6 +408,26 @@ func runC12(run *mc.Run) int {
 			emit(job{stream: strings.Join(cs, ""), chunks: cs, delim: '\n', class: "paused-writer", pause: pz})
 		}
 	}
+	// (2b) arbitrary bytes inside records: NUL, 0xff (invalid UTF-8), CR, blank - every stream of <= 4 symbols over
+	// those and the delimiter, every partition
+	{
+		syms := []byte{0x00, 0xff, '\r', ' ', '\n'}
+		var gen func(prefix []byte)
+		gen = func(prefix []byte) {
+			if len(prefix) > 0 {
+				for cuts := uint32(0); cuts < 1<<uint(len(prefix)-1); cuts++ {
+					emit(job{stream: string(prefix), cuts: cuts, delim: '\n', class: "arbitrary-bytes"})
+				}
+			}
+			if len(prefix) == 4 {
+				return
+			}
+			for _, c := range syms {
+				gen(append(append([]byte{}, prefix...), c))
+			}
+		}
+		gen(nil)
+	}
 	// (3c) a second stream served by the same ingester value after one that ended mid-record
 	for _, tail := range []int{1, 100, 4095, 4096, 4097, 5000, 12288, 70000} {
 		first := "head\n" + strings.Repeat("t", tail)
@@ -421,7 +441,7 @@ func runC12(run *mc.Run) int {
 	close(jobs)
 	wg.Wait()
 	cov := mc.Coverage{Level: "exploration", Evaluations: int(evals), Distinct: int(multi), Exhaustive: complete && skipped == 0, Samples: samples,
-		Rule:  fmt.Sprintf("the real NamedPipeIngester.Ingest on real FIFOs: every byte stream over {a,b,delimiter} of length <=%d x every one of the 2^(len-1) partitions into write(2) calls (FIONREAD handshake: each write is drained before the next), delimiters \\n and NUL; records of 4095..70000 bytes x chunk sizes {1,2,4095,4096,4097,whole}; a callback error at each record index (the callback's own error, io.EOF, context.Canceled, os.ErrClosed, io.ErrUnexpectedEOF; also with the context cancelled by the time the callback returns); a second stream served by the same ingester value after one that ended with an unterminated tail of 1..70000 bytes; writers that pause 0.3 s (thorough: 1.5 s, 5 s) between their writes, mid-record; unterminated tails and the empty stream. Oracle (partition-independent): callback arguments = the delimiter-terminated records in order (one trailing delimiter allowed), nothing after the last delimiter, callback error returned unchanged, end-of-stream returned as an error. distinct_nontrivial = runs whose stream was split over >=2 writes", n),
+		Rule:  fmt.Sprintf("the real NamedPipeIngester.Ingest on real FIFOs: every byte stream over {a,b,delimiter} of length <=%d x every one of the 2^(len-1) partitions into write(2) calls (FIONREAD handshake: each write is drained before the next), delimiters \\n and NUL; every stream of <=4 symbols over {NUL, 0xff, CR, blank, newline} x every partition; records of 4095..70000 bytes x chunk sizes {1,2,4095,4096,4097,whole}; a callback error at each record index (the callback's own error, io.EOF, context.Canceled, os.ErrClosed, io.ErrUnexpectedEOF; also with the context cancelled by the time the callback returns); a second stream served by the same ingester value after one that ended with an unterminated tail of 1..70000 bytes; writers that pause 0.3 s (thorough: 1.5 s, 5 s) between their writes, mid-record; unterminated tails and the empty stream. Oracle (partition-independent): callback arguments = the delimiter-terminated records in order (one trailing delimiter allowed), nothing after the last delimiter, callback error returned unchanged, end-of-stream returned as an error. distinct_nontrivial = runs whose stream was split over >=2 writes", n),
 		Extra: map[string]any{"runs_per_class": classes, "max_stream_len": n}}
 	cov.Assumptions = []string{"kernel FIFO semantics; a write larger than the pipe buffer may be split by the kernel (affects only which partition was exercised, not the verdict)"}
 	return run.Finish(cov)
